@@ -34,6 +34,17 @@ type recCase struct {
 	Seq    []string `json:"seq"`                                        // ok | panic …
 }
 
+// c15Strict refuses status codes outside 100..999 the way net/http's own writer does: by panicking, before
+// anything is sent.
+type c15Strict struct{ *retSpy }
+
+func (s c15Strict) WriteHeader(c int) {
+	if c < 100 || c > 999 {
+		panic(fmt.Sprintf("invalid WriteHeader code %v", c))
+	}
+	s.retSpy.WriteHeader(c)
+}
+
 type c15Missing struct{ _ int }
 type c15Struct struct{ M string }
 type c15BadErr struct{ msg string }
@@ -90,7 +101,7 @@ func genRecCase(rng *rand.Rand, env string) *recCase {
 	}
 	c.Where = []string{"route", "route", "action", "notfound", "group"}[rng.Intn(5)]
 	c.Phase = []string{"before", "before", "after-header", "after-body"}[rng.Intn(4)]
-	c.Kind = []string{"string", "error", "runtime", "struct", "int", "abort", "dep", "nilerr", "neterr-epipe", "neterr-reset", "slice", "map", "structslice", "sliceerr"}[rng.Intn(14)]
+	c.Kind = []string{"string", "error", "runtime", "struct", "int", "abort", "dep", "nilerr", "neterr-epipe", "neterr-reset", "slice", "map", "structslice", "sliceerr", "bad-status-writeheader", "bad-status-return", "before-function-panics"}[rng.Intn(17)]
 	c.Inner = rng.Intn(5) == 0
 	if rng.Intn(6) == 0 {
 		// a buffering middleware in front of Recovery; nothing else writes, the panic comes before any write
@@ -141,6 +152,8 @@ func (c *recCase) markerOf() string {
 		return "broken pipe"
 	case "neterr-reset":
 		return "connection reset by peer"
+	case "bad-status-writeheader", "bad-status-return":
+		return "invalid WriteHeader code 42"
 	}
 	return c.Marker
 }
@@ -236,6 +249,17 @@ func clip(s string) string {
 
 // normalize keeps hand-written / replayed cases inside the workload's assumptions.
 func (c *recCase) normalize() {
+	switch c.Kind {
+	case "bad-status-writeheader", "bad-status-return", "before-function-panics":
+		// these panics are raised while the FIRST status is being sent (by the underlying writer, which refuses the
+		// code, or by a before-function): nothing may have been sent earlier, and the writer must be the real one
+		c.Phase, c.Buffer = "before", false
+		for i := range c.Mid {
+			if c.Mid[i] == "write-next" {
+				c.Mid[i] = "next"
+			}
+		}
+	}
 	if c.Buffer {
 		if c.Pre == 0 {
 			c.Pre = 1
@@ -359,6 +383,11 @@ func judgeRec(w *core.W, c *recCase) {
 			panic(n)
 		case "abort":
 			panic(http.ErrAbortHandler)
+		case "bad-status-writeheader":
+			ctx.ResponseWriter().WriteHeader(42) // the underlying writer panics, as net/http's does; nothing has been sent
+		case "before-function-panics":
+			ctx.ResponseWriter().Before(func(flamego.ResponseWriter) { panic(c.Marker) })
+			_, _ = ctx.ResponseWriter().Write([]byte("never-sent"))
 		case "slice":
 			panic([]string{c.Marker})
 		case "map":
@@ -377,6 +406,9 @@ func judgeRec(w *core.W, c *recCase) {
 		}
 	}
 	var panicH flamego.Handler = boom
+	if c.Kind == "bad-status-return" {
+		panicH = func(ctx flamego.Context) (int, string) { boom(ctx); return 42, "never-sent" }
+	}
 	if c.Kind == "dep" {
 		panicH = func(ctx flamego.Context, _ *c15Missing) { boom(ctx) }
 	}
@@ -413,7 +445,7 @@ func judgeRec(w *core.W, c *recCase) {
 				hdr.Set("Accept", c.Accept)
 				hdr.Set("X-Requested-With", "XMLHttpRequest")
 			}
-			f.ServeHTTP(spy, &http.Request{Method: "GET", URL: &url.URL{Path: path}, Header: hdr, RequestURI: path})
+			f.ServeHTTP(c15Strict{spy}, &http.Request{Method: "GET", URL: &url.URL{Path: path}, Header: hdr, RequestURI: path})
 		}()
 		o.status, o.body, o.events = spy.status, string(spy.body), events
 		return o
@@ -499,7 +531,7 @@ func runC15(r *core.Run) {
 	ws.Done()
 	ws.Merge()
 	flamego.SetEnv(orig)
-	for _, k := range []string{"environment-switched-after-assembly", "kind:string", "kind:error", "kind:runtime", "kind:struct", "kind:int", "kind:abort", "kind:dep", "kind:nilerr", "kind:neterr-epipe", "kind:neterr-reset", "kind:slice", "kind:map", "kind:structslice", "kind:sliceerr", "second-recovery-nearer-the-panic", "request-context-cancelled-while-unwinding", "buffering-writer-in-front-of-recovery", "phase:before", "phase:after-header", "phase:after-body", "where:route", "where:group", "where:action", "where:notfound", "depth:flat", "depth:nested-next", "follow-up-requests"} {
+	for _, k := range []string{"environment-switched-after-assembly", "kind:string", "kind:error", "kind:runtime", "kind:struct", "kind:int", "kind:abort", "kind:dep", "kind:nilerr", "kind:neterr-epipe", "kind:neterr-reset", "kind:slice", "kind:map", "kind:structslice", "kind:sliceerr", "kind:bad-status-writeheader", "kind:bad-status-return", "kind:before-function-panics", "second-recovery-nearer-the-panic", "request-context-cancelled-while-unwinding", "buffering-writer-in-front-of-recovery", "phase:before", "phase:after-header", "phase:after-body", "where:route", "where:group", "where:action", "where:notfound", "depth:flat", "depth:nested-next", "follow-up-requests"} {
 		r.GateCounter(k, 100)
 	}
 	r.Gate("distinct_nontrivial", r.NonTrivialCount(), 1000)
